@@ -121,7 +121,7 @@ def ruleName : Rule → String
   | .emptyStruct => "emptyStruct" | .dupField => "dupField" | .dupEnumName => "dupEnumName"
   | .dupEnumValue => "dupEnumValue" | .dupImpl => "dupImpl" | .implNoStruct => "implNoStruct"
   | .dupCanId => "dupCanId" | .implTooBig => "implTooBig" | .dupType => "dupType"
-  | .missingService => "missingService" | .serviceRpc => "serviceRpc"
+  | .missingService => "missingService" | .serviceRpc => "serviceRpc" | .intWidth => "intWidth"
 
 def opVerify (j : Json) : Except String Json := do
   let S ← J.schema (← j.getObjVal? "schema")
